@@ -254,6 +254,12 @@ theorem closure_ok (hH : SliceHyp H) (env : Env) (c : Closure) : MOKh H (tokAtom
           · exact ⟨_, rfl⟩
           · rw [getContent_textOf src t ht]; exact ⟨_, rfl⟩
       · exact ⟨_, rfl⟩
+      · exact ⟨_, rfl⟩
+      · split
+        · exact ⟨_, rfl⟩
+        · rw [if_neg (by have := ht.1; omega)]; exact ⟨_, rfl⟩
+      · exact ⟨_, rfl⟩
+      · exact ⟨_, rfl⟩
     obtain ⟨b, eb⟩ := hb
     simp only [tokAtomE, eb]
     refine ⟨_, rfl, ?_⟩
@@ -906,7 +912,8 @@ theorem exactWordTest_left (w : List Char) (P D : List Char) (t : Tok) (h : t.sp
 
 theorem closureTest_shift (env : Env) (c : Closure) (P D : List Char) (t : Tok) (j : Nat) :
     c.test env (P ++ D) (shTok P.length j t) = c.test env D t := by
-  cases c <;> simp only [Closure.test, hasFlag_shift, shTok_span, getContent_shift']
+  cases c <;> simp only [Closure.test, hasFlag_shift, shTok_span, getContent_shift', shiftSpan_start, shiftSpan_stop, Span.len,
+    Nat.add_lt_add_iff_right, Nat.add_sub_add_right, gt_iff_lt]
 
 theorem closureTest_left (env : Env) (c : Closure) (P D : List Char) (t : Tok) (h : t.span.stop ≤ P.length) :
     c.test env (P ++ D) t = c.test env P t := by
